@@ -20,7 +20,7 @@ Proof. exact packet_roundtrip. Qed.
 Print Assumptions C18_packet_roundtrip.
 
 (* payloads above the maximum are refused by writePacket (struct.error), never truncated *)
-Theorem C18_oversize_refused : forall p, 65533 < c_len p -> write_packet p = Exc StructError.
+Theorem C18_oversize_refused : forall p, 65533 < zlen (c_data p) -> write_packet p = Exc StructError.
 Proof. exact write_packet_too_long. Qed.
 Print Assumptions C18_oversize_refused.
 
@@ -38,7 +38,7 @@ Print Assumptions C18_unsupported_version_rejected_bytes.
 
 (* in a stream, a frame of unsupported version is rejected and reading resumes right after it *)
 Theorem C18_unsupported_version_in_stream : forall p b s,
-  Z.land (c_ver p) 3 <> 0 -> c_len p = zlen (c_data p) -> c_len p <= 65533 ->
+  Z.land (c_ver p) 3 <> 0 -> zlen (c_data p) <= 65533 ->
   concat s = frame p ++ b ->
   exists s', read_packet s = (Exc RuntimeErr, s') /\ concat s' = b.
 Proof. exact read_packet_bad_version. Qed.
@@ -161,3 +161,67 @@ Theorem C18_uart_crtp_tunnel : forall port chan d rest lock, zlen d <= 97 ->
       Some (mk_crtp (crtp_header port chan) (Z.land port 15) (Z.land chan 3) d).
 Proof. exact uart_tunnel. Qed.
 Print Assumptions C18_uart_crtp_tunnel.
+
+(* ---- round 2: the sending side, packets filled in after construction, the CPX facade ---- *)
+
+(* Short writes (fix F18a): whatever number of bytes each send call takes, writePacket puts the complete frame
+   on the stream, so C18_stream_reassembly applies to what was really transmitted. *)
+Theorem C18_short_send_complete : forall takes p, wf_cpx p -> tx_packet takes p = Ok (frame p).
+Proof. exact tx_packet_wf. Qed.
+Print Assumptions C18_short_send_complete.
+
+(* The code before F18a (one send call, result ignored) lost the tail of the frame whenever send took less. *)
+Theorem C18_single_send_loses_bytes : forall t ts buf, 0 <= t < zlen buf ->
+  send_once (t :: ts) buf = firstn (Z.to_nat t) buf /\ zlen (send_once (t :: ts) buf) < zlen buf.
+Proof. exact send_once_short. Qed.
+Print Assumptions C18_single_send_loses_bytes.
+
+(* Data assigned after construction (fix F18b): the `length` attribute plays no role; the packet is framed by
+   its data and read back, under any fragmentation, with all attributes intact and `length` refreshed. *)
+Theorem C18_stale_length_harmless : forall takes p b s, wf_attrs p ->
+  tx_packet takes p = Ok (frame p) /\
+  (concat s = frame p ++ b -> exists s', read_packet s = (Ok (refresh p), s') /\ concat s' = b).
+Proof. intros takes p b s H. split; [now apply write_packet_attrs|intros Hc; now apply read_packet_frame_attrs]. Qed.
+Print Assumptions C18_stale_length_harmless.
+
+(* CPX facade with the router thread: any session of sendPacket / receivePacket / router iterations behaves as
+   the router on the transport (C18_router_on_stream applies), and every sendPacket puts exactly the frame of
+   its packet on the stream. *)
+Theorem C18_cpx_session : forall takes evs s st, forallb c_simple evs = true ->
+  let '(c', os) := c_run takes (mk_cs s st true) evs in
+  let '(s', st', o) := sys_run s st (c_proj evs) in
+  c' = mk_cs s' st' true /\ recv_obs os = o /\ sent_obs os = map (tx_packet takes) (sends evs).
+Proof. exact c_run_simple. Qed.
+Print Assumptions C18_cpx_session.
+
+(* makeTransaction returns the reply of the same function that is next on the stream, however fragmented *)
+Theorem C18_cpx_transaction : forall takes p r b s st,
+  wf_cpx p -> wf_cpx r -> c_fn r = c_fn p -> concat s = frame r ++ b ->
+  (st (c_fn p) = None \/ st (c_fn p) = Some []) ->
+  exists c', c_step takes (mk_cs s st true) (CTransact p 1) = (c', [OTrans (Ok (frame p)) (Some r)]) /\
+    concat (cs_in c') = b /\ cs_rt c' (c_fn p) = Some [] /\ cs_open c' = true.
+Proof. exact c_transact_reply. Qed.
+Print Assumptions C18_cpx_transaction.
+
+(* close(): no further router iteration, sending fails, queued packets stay retrievable (CRecv is unaffected) *)
+Theorem C18_cpx_after_close : forall takes s st p,
+  c_step takes (mk_cs s st false) CPump = (mk_cs s st false, []) /\
+  c_step takes (mk_cs s st false) (CSend p) = (mk_cs s st false, [OSent (Exc AttributeErr)]) /\
+  fst (c_step takes (mk_cs s st true) CClose) = mk_cs s st false.
+Proof. exact c_after_close. Qed.
+Print Assumptions C18_cpx_after_close.
+
+(* UART (fix F18c): an oversize packet is refused with the flow-control lock untouched; the next packet goes out
+   and is read back intact.  Before the fix the next write blocked for ever. *)
+Theorem C18_uart_oversize_leaves_link_usable : forall big p rest lock,
+  98 < zlen (c_data big) -> wf_cpx p -> zlen (c_data p) <= 98 ->
+  snd (uart_write false big) = false /\
+  exists bytes, uart_write (snd (uart_write false big)) p = (WOk bytes, true) /\
+    uart_read (bytes ++ rest) lock = (UPacket (Ok p) true, rest, lock).
+Proof. exact uart_oversize_then_send. Qed.
+Print Assumptions C18_uart_oversize_leaves_link_usable.
+
+Theorem C18_uart_old_oversize_wedged : forall big p, 98 < zlen (c_data big) ->
+  uart_write_old (snd (uart_write_old false big)) p = (WBlocked, true).
+Proof. exact uart_old_oversize_wedges. Qed.
+Print Assumptions C18_uart_old_oversize_wedged.
